@@ -173,6 +173,15 @@ def _trace_repo_job(rel):
     return v
 
 
+def _compzero_job(kind):
+    from .. import compzero
+
+    L = lifecycle.Live(kind)
+    L.set_point("p0")
+    L.run()
+    return (kind, compzero.component_cases(L.m.prob))
+
+
 def run(tier, only=None):
     R = Run("C03", tier, "model_checking")
     kinds = [k for k in KINDS[tier] if not only or k in only]
@@ -216,6 +225,14 @@ def run(tier, only=None):
             R.violation(key, {"kind": kind, "history": h, "start": "p0", "deviations": devs})
             if i >= nreg:
                 confirmed.add(json.dumps(h))
+    # point z at component granularity: every component alone, evaluated at its inputs of the model and then with one input zeroed
+    ncz = 0
+    for kind, cases in check_exc(pmap(_compzero_job, KINDS["thorough"] if tier == "thorough" else ["aero2", "aerog", "as_tube", "as_wingbox", "multipoint"])):
+        for cls, what, verdict, detail in cases:
+            ncz += 1
+            R.case(["component_zero", kind, cls, what], verdict != "skipped", sample={"component": cls, "zeroed": what, "verdict": verdict} if ncz % 61 == 0 else None, section="component_special_values")
+            if verdict in ("deviates", "exception_only_after_history"):
+                R.violation("component_zero:%s:%s" % (cls, what), {"kind": kind, "component": cls, "zeroed_input": what, "detail": detail})
     # mode T: recorded executions validated by TraceLifecycle
     long_h = sorted((h for h in hs if len(h) >= DEPTH[tier]), key=lambda h: -sum(1 for e in h if e[0] in ("totals", "check")))[: (4 if tier == "quick" else 24)]
     tjobs = [(k, concretise(k, h, i)) for k in kinds[:2] for i, h in enumerate(long_h)]
